@@ -169,10 +169,6 @@ def unify(a, b, what):
     return a
 
 
-def fix(sig):
-    return lambda: ([SV(s) for s in sig[0]], SV(sig[1]))
-
-
 F3, FF, NN = ["F", "F", "F"], ["F", "F"], ["Fn", "Fn"]
 SIG = {  # vocabulary with fixed argument and result sorts
     "fromM": (["Int"], "F"), "fromMn": (["Int"], "Fn"), "fofint": (["Int"], "F"), "nofint": (["Int"], "Fn"),
@@ -199,10 +195,14 @@ class Ctx:
             params, body, where = self.defines[name]
             self.sigs[name] = None                                    # cycle guard
             env = {p: SV(ALL) for p in params}
-            ast = parse(body)
-            ret = self.infer(ast, env)
-            used = set(re.findall(r"\w+", body))                      # a parameter the body does not mention (X of dblY) takes
-            nodes = self.resolve(ast, [env[p] for p in params if p in used] + [ret], "F", "define " + name)   # any sort
+            try:
+                ast = parse(body)
+                ret = self.infer(ast, env)
+                used = set(re.findall(r"\w+", body))                  # a parameter the body does not mention (X of dblY) takes
+                nodes = self.resolve(ast, [env[p] for p in params if p in used] + [ret], "F", "define " + name)   # any sort
+            except Err as x:
+                del self.sigs[name]
+                raise Err("define %s (%s): %s" % (name, where, x))
             self.sigs[name] = ([env[p].find().allowed for p in params], ret.find().allowed, ast, nodes)
         if self.sigs[name] is None:
             raise Err("recursive define " + name)
@@ -244,7 +244,7 @@ class Ctx:
             elif op == "fint" and len(args) == 1:
                 want, s = [SV(FLD)], SV("Int")
             elif op in SIG:
-                want, s = fix(SIG[op])()
+                want, s = [SV(x) for x in SIG[op][0]], SV(SIG[op][1])
             elif op in self.defines:
                 want, s = self.define_sig(op)
             else:
@@ -406,7 +406,8 @@ def vocab_checks(ctx, text):
         if not by_def and not re.search(r"^(noncomputable )?def %s\b" % d, text, re.M):
             continue
         try:
-            ps, ret, ast, nodes = (ctx.define_sig(d), ctx.sigs[d])[1]
+            ctx.define_sig(d)
+            ps, ret, ast, nodes = ctx.sigs[d]
             mark_consts(nodes, params, ctx.consts)
             lhs = " ".join([lname] + [ident(p) for p in params])
             st = "%s %s %s" % (lhs, "↔" if ret == {"Bool"} else "=", wrap(lean(ast), 51 if ret != {"Bool"} else APP))
